@@ -17,6 +17,10 @@ CONSTANTS
   CxxSize <- XSize
   CxxFixedId <- XFixedId
   CxxName <- XName
+  CxxClassK <- XClassK
+  CxxClassT <- XClassT
+  Vias = {"tmpl", "value", "new"}
+  MetaAsk = {}
   TraitsRegs = {"cspan_pod3", "generic_ptr", "basic_ptr", "mvalue_pod3_ptr"}
   GenericPtr = "generic_ptr"
   BasicPtr = "basic_ptr"
